@@ -19,7 +19,9 @@ def wordAssert : Prog :=
 def wordAssertEq : Prog :=
   .pop fun a => .pop fun b => if Cell.beq a b then .done else .fail (.assertEqFailed a b)
 def wordError : Prog := .pop fun a => .fail (.userError a)
-def wordExit : Prog := .stop (.pop fun a => ofOutcome a.toIsize fun c => .fail (.exit c))
+/-- `exit` ( code -- ): the stop request is raised once the exit code has been taken — an `exit` that finds no code (or
+    something that is not one) fails like any other word and stops nothing (repair: the flag used to be raised first) -/
+def wordExit : Prog := .pop fun a => ofOutcome a.toIsize fun c => .stop (.fail (.exit c))
 
 /-- `counter_value(n)` : I / J / K -/
 def wordCounter (n : Nat) : Prog :=
